@@ -528,7 +528,7 @@ pub const C18H_PROBES: &[&str] = &[
     "stopped_mid_stream", "into_input_checked", "dest_len_zero", "compress_with_stream_data",
 ];
 pub const C05_PROBES: &[&str] = &[
-    "chain_requests_2plus", "lookahead_at_handoff", "handoff_full_buffer", "fed_after_done", "stopped_mid_stream", "held_back_header_seen",
+    "chain_requests_2plus", "lookahead_at_handoff", "handoff_full_buffer", "fed_after_done", "converted_with_stream_selected", "converted_with_unconsumed_stream_data", "stopped_mid_stream", "held_back_header_seen",
     "exact_fill_read", "parse0_on_full_buffer",
 ];
 pub const C11S_PROBES: &[&str] = &["abort_in_stream", "held_back_header_seen"];
@@ -846,12 +846,18 @@ pub fn c05(cx: &mut Ctx) -> VResult {
                 if pol != ReadPolicy::Full { break; }
             }
         }
-        // as close() does: select none, parse to a record boundary only if not at one
-        if n > 0 { d.select(cx, None)?; }
+        // as close() does: select none, parse to a record boundary only if not at one. The documented
+        // precondition of the conversion is only "record boundary + empty output buffer", so sometimes the
+        // stream stays selected and extracted-but-unconsumed stream data is left in the internal buffer.
+        let deselect = n == 0 || d.active.is_none() || !cx.ch.chance(1, 3);
+        if n > 0 && deselect { d.select(cx, None)?; }
+        if !deselect { cx.probe("converted_with_stream_selected"); }
         let mut guard_steps = 0;
         while !d.p.is_record_boundary() {
-            let sb = d.p.stream_buffer().len();
-            d.consume(cx, sb);
+            if deselect || d.p.input_buffer().is_empty() {
+                let sb = d.p.stream_buffer().len();
+                d.consume(cx, sb);
+            }
             d.p.compress();
             d.feed_parse(cx, None, "c05_chain_stream")?;
             guard_steps += 1;
@@ -877,6 +883,7 @@ pub fn c05(cx: &mut Ctx) -> VResult {
         vcheck!(got == exp, "c04_reply_stream", "chain: request {i} stream-phase replies {} expected {}", hex(&got), hex(&exp));
         let ob = d.p.output_buffer().len();
         d.drain_output(cx, ob);
+        if !d.p.stream_buffer().is_empty() { cx.probe("converted_with_unconsumed_stream_data"); }
         let sp = d.p;
         pos = fed;
         rp = match guard(move || sp.into_request_parser()) {
